@@ -59,3 +59,67 @@ package language
 //@   requires len(args) == 2 && forall j int :: 0 <= j && j < len(args) ==> args[j] != nil
 //@ func listAppend
 //@   requires len(args) == 2 && forall j int :: 0 <= j && j < len(args) ==> args[j] != nil
+
+// ---- C09: lexer totality ---------------------------------------------------------------------------------
+// LInv: readPosition is one past position, and ch is the byte at position (0 at or beyond the end of the input)
+
+//@ global !(0 in especialChars) && !(0 in singleChar)
+
+//@ pred LInv(l *Lexer) :=
+//@   l != nil && l.position >= 0 && l.readPosition == l.position + 1 &&
+//@   (l.position < len(l.input) ==> l.ch == l.input[l.position]) && (l.position >= len(l.input) ==> l.ch == 0)
+
+//@ func (*Lexer).readChar
+//@   nopanic
+//@   requires l != nil && l.readPosition >= 0
+//@   modifies l.ch, l.position, l.readPosition
+//@   ensures[C09] LInv(l) && l.position == old(l.readPosition)
+
+//@ func (*Lexer).peekChar
+//@   nopanic
+//@   requires LInv(l)
+
+//@ func NewLexer
+//@   nopanic
+//@   ensures[C09] LInv(result) && result.input == input && fresh(result)
+
+//@ func (*Lexer).skipWhitespace
+//@   nopanic
+//@   requires LInv(l)
+//@   modifies l.ch, l.position, l.readPosition
+//@   ensures[C09] LInv(l) && l.position >= old(l.position)
+//@   loop 1:
+//@     invariant LInv(l) && l.position >= old(l.position)
+//@     decreases len(l.input) - l.position
+
+//@ func (*Lexer).readIdentifier
+//@   nopanic
+//@   requires LInv(l) && l.position < len(l.input)
+//@   modifies l.ch, l.position, l.readPosition
+//@   ensures[C09] LInv(l) && l.position >= old(l.position) && l.position <= len(l.input)
+//@   ensures[C09] old(isIdentifierLetter(l.ch)) ==> l.position > old(l.position)
+//@   loop 1:
+//@     invariant LInv(l) && l.position >= old(l.position) && l.position <= len(l.input)
+//@     invariant l.position > old(l.position) || (l.position == old(l.position) && l.ch == old(l.ch))
+//@     decreases len(l.input) - l.position
+
+//@ func (*Lexer).manageLessThanToken
+//@   nopanic
+//@   requires LInv(l)
+//@   modifies l.ch, l.position, l.readPosition
+//@   ensures[C09] LInv(l) && l.position >= old(l.position)
+
+//@ func (*Lexer).manageGreaterThanToken
+//@   nopanic
+//@   requires LInv(l)
+//@   modifies l.ch, l.position, l.readPosition
+//@   ensures[C09] LInv(l) && l.position >= old(l.position)
+
+// NextToken keeps the invariant and makes progress: unless the lexer is at the end of its input it consumes at least one byte
+//@ func (*Lexer).NextToken
+//@   nopanic
+//@   requires LInv(l)
+//@   modifies l.ch, l.position, l.readPosition
+//@   ensures[C09] LInv(l) && l.position >= old(l.position)
+//@   ensures[C09] old(l.position) < len(l.input) ==> l.position > old(l.position)
+//@   ensures[C09] old(l.position) >= len(l.input) ==> result.Type == EOF
